@@ -46,6 +46,11 @@ def run(tier):
             chk.violation("[%s/%s] tainted pointer outside its sandbox (C03): %s" % (mode, tag, mc.pretty(ev)), mc.pretty(ev))
         if mode == "chain":
             chk.sample(mc.pretty(events[7]))
+    # pointers read from a cell that the sandbox rewrites after every read: *p, p->, p[n], p +/- n
+    import fetchcommon as fc
+    nf, cf = fc.judge(chk, wd, "c03", "C03", ("wasm32", "ilp64", "lp16"))
+    total += nf
+    combos |= cf
     chk.count(evaluations=total, distinct=len(combos), traces=len(jobs))
     chk.cov["exhaustive"] = True
     chk.cov["exhaustive_scope"] = "all representations < 2^16 (2^20 thorough) in the memory-cell position and a quarter of them " \
